@@ -1,6 +1,7 @@
 """Cooperative scheduler: the harness owns the interleaving of registered writer threads.
 
-Yield points: every filesystem-mutating CPython audit event (open-for-write, rename, chmod, link,
+Yield points: every open() under the scratch root (reads included) and every filesystem-mutating CPython
+audit event (rename, chmod, link,
 symlink, mkdir, remove, rmdir, the harness's own mid-copy event) and every os.stat/os.lstat call,
 restricted to paths under the case's scratch root.  At a yield point the running registered thread
 asks the scheduler who runs next (next element of the generated schedule, then round-robin); if it
@@ -14,7 +15,7 @@ import shutil
 import sys
 import threading
 
-from .crash import _PATH_EVENTS, _WRITE_FLAGS, _under
+from .crash import _PATH_EVENTS, _under
 
 _ACTIVE = None
 _HOOKED = False
@@ -48,8 +49,10 @@ class Sched:
         alive = sorted(self.alive)
         if not alive:
             return None
-        if self.pos < len(self.schedule):
-            k = self.schedule[self.pos]
+        if self.schedule:
+            # the generated schedule is consumed cyclically, so run lengths keep varying over a long run
+            # (strict alternation after a short prefix explored one interleaving shape only)
+            k = self.schedule[self.pos % len(self.schedule)] + self.pos // len(self.schedule)
             self.pos += 1
             return alive[k % len(alive)]
         self.rr += 1
@@ -106,7 +109,8 @@ def _hook(event, args):
         path, _mode, flags = args
         if isinstance(path, int):
             return
-        if (flags or 0) & _WRITE_FLAGS and _under(path, s.root):
+        # reads too: opening an object another writer may be replacing / removing is an interaction point
+        if _under(path, s.root):
             s.yield_point(event)
         return
     idx = _PATH_EVENTS.get(event)
